@@ -61,6 +61,7 @@ class CohGen:
             typedefs=True,
             serialize_p=0.0,            # probability that a class declares the serialize() marker
             same_arity_overloads=True,  # (matlab) overloads of equal arity told apart by the type test of a parameter
+            keyword_params=0.06,        # (pybind) probability that a parameter is named like a Python keyword
             twin_signatures=0.2,        # probability that a callable reuses the parameter list of an earlier one
             member_template_p=0.2,      # methods (and, where the target allows, static methods / free functions) with
                                         # their own template parameter and instantiation list
@@ -88,11 +89,18 @@ class CohGen:
         return self.name(self.r.choice(['foo', 'bar', 'compute', 'get', 'x', 'val', 'update', 'k', 'run', 'at']))
 
     def uname(self):
-        return self.name(self.r.choice(['Alpha', 'Beta', 'Gamma', 'Node', 'Pose', 'Factor', 'Key', 'Model', 'Q']))
+        return self.name(self.r.choice(['Alpha', 'Beta', 'Gamma', 'Node', 'Pose', 'Factor', 'Key', 'Model', 'Q',
+                                        'Reconstruction', 'Unstatic', 'Subvirtual']))
+
+    def pname(self):
+        """parameter name: now and then a Python keyword (a fine C++ identifier; the binding keeps it as keyword name)"""
+        if self.target == 'pybind' and self.r.random() < self.f['keyword_params']:
+            return self.r.choice(['lambda', 'in', 'from', 'pass', 'is', 'def', 'global', 'yield', 'None'])
+        return self.lname()
 
     def member_name(self, role):
         if self.r.random() < self.f['special_names']:
-            pool = PY_RESERVED_CPP_OK + IPY + ['print']
+            pool = PY_RESERVED_CPP_OK + IPY + ['print'] * 5
             if role == 'method':
                 pool = pool + ['serialize', 'serializable']
             return self.r.choice(pool)
@@ -293,7 +301,10 @@ class CohGen:
                     t = S.T('vector', ('std',), (S.T(t.name),), r.random() < 0.5, r.choice(['', '&']))
                     if t.marker == '&':
                         t = S.T(t.name, t.ns, t.args, True, '&')
-            out.append([t, self.lname(), None])
+            nm = self.pname()
+            if nm in [x[1] for x in out]:
+                nm = self.lname()
+            out.append([t, nm, None])
         # defaults form a suffix of the parameter list
         if self.f['defaults'] and out and r.random() < 0.5:
             k = r.randint(1, len(out))
@@ -615,7 +626,7 @@ class CohGen:
             out = []
             if depth < self.k.ns_depth:
                 for _ in range(r.randint(0, self.k.namespaces)):
-                    nm = self.name(r.choice(['ns', 'geo', 'nav', 'inner']))
+                    nm = self.name(r.choice(['ns', 'geo', 'nav', 'inner', 'constants']))
                     saved = self.cur_ns
                     self.cur_ns = saved + (nm,)
                     sub = self.namespace_items(depth + 1)
